@@ -43,7 +43,10 @@ def strategy(tier):
             idx = min(len(out), (pos * (len(ops) + 1)) // 1000 + k)
             out.insert(idx, dict(b, n=200000 + k))
         return dict(p, ops=out)
-    woven = st.builds(weave, base, st.lists(st.tuples(st.integers(0, 999), gen.bad), min_size=1, max_size=3))
+    # a third of the refused calls name their catalogue row outright (uniform over all rows; the w / wx / wy selectors give the
+    # three parts of the catalogue fixed shares, so rows of a long part are drawn rarely)
+    named = st.builds(lambda b, r: dict(b, row=r), gen.bad, st.sampled_from(ROW_NAMES))
+    woven = st.builds(weave, base, st.lists(st.tuples(st.integers(0, 999), st.one_of(gen.bad, gen.bad, named)), min_size=1, max_size=3))
     # scenario profiles bring the refused call (and the history it needs) with them
     scen = gen.relocname(reopen_ok=False).map(lambda p: dict(p, profile='relocname'))
     return st.tuples(gen.weighted([(woven, 14), (scen, 1)]), st.none())
